@@ -95,7 +95,9 @@ def main(tier, seed):
     tf = use_impl()
     refused = []
     # the storage's I/O calls are regenerated from storages.py (symbolic execution) and proved equal to the model's scripts (proofs/IOGenP.v)
-    b = ck.build_proofs("Prop_C15", pre=lambda: run_translator("py2coq_io.py", "tinyflux/storages.py", "gen/IOGen.v", refused), extra_targets=["Run.vo", "IO.vo"])
+    b = ck.build_proofs("Prop_C15", pre=lambda: (run_translator("py2coq_io.py", "tinyflux/storages.py", "gen/IOGen.v", refused),
+                                                      # the access gates of every method of TinyFlux / Measurement and what each does to storage (C15_source_every_*)
+                                                      run_translator("py2coq_gates.py", "tinyflux/database.py", "gen/GatesGen.v", refused)), extra_targets=["Run.vo", "IO.vo"])
     n = 231 if tier == "quick" else 1617          # 33 kinds x 7 access modes: every kind meets every mode
     kinds = PURE_KINDS * 2 + WRITE_KINDS
     modes = [None, None, "r+", "r", "r", "a", "w+"]
